@@ -704,7 +704,7 @@ pub fn main(args: &Args) -> ! {
     let mut rep = Report::new("C04", args, "fault_enumeration");
     let thorough = args.tier == Tier::Thorough;
     let dl = deadline(if thorough { 1200 } else { 45 });
-    rep.rule = "E3 over the real endpoints: (a) every emitted datagram of each baseline re-delivered after each delay of a delay list (and all pairs in thorough) with forced key updates, oracle: per frame type frames processed <= frames decoded on the wire; (b) every emitted datagram x every mutation (every bit of the first byte, bit flips in the leading 24 (thorough: 32, all bits) and trailing 16 bytes, truncations around every header boundary, extensions) injected after the original, differential oracle against the uninjected run; (b2) each early datagram damaged in transit (original lost, mutated copy arrives): the peers must recover and complete; (c) stateless-reset, Version Negotiation and Retry probes at every step index. Non-trivial = the injected/duplicated datagram was actually delivered; distinct = distinct (kind, index, mutation) tuples by hash of the resulting trace.".into();
+    rep.rule = "E3 over the real endpoints: (a) every emitted datagram of each baseline re-delivered after each delay of a delay list (and all pairs in thorough) with forced key updates, oracle: per frame type frames processed <= frames decoded on the wire; (b) every emitted datagram x every mutation (every bit of the first byte, bit flips in the leading 24 (thorough: 32, all bits) and trailing 16 bytes, truncations around every header boundary, extensions) injected after the original, differential oracle against the uninjected run; (b2) each early datagram damaged in transit (original lost, mutated copy arrives): the peers must recover and complete; (c) stateless-reset, Version Negotiation and Retry probes at every step index; (d) E1: the replay window (`Dedup`) through every insert history over two packet-number alphabets (one dense around jumps of 126..131 and the second window) against the set of numbers seen. Non-trivial = the injected/duplicated datagram was actually delivered; distinct = distinct (kind, index, mutation) tuples by hash of the resulting trace.".into();
 
     // (a) duplicates
     let scripts: Vec<(&'static str, Vec<(u64, Op)>)> = vec![
@@ -1002,6 +1002,8 @@ pub fn main(args: &Args) -> ! {
     if resets_effective == 0 || retries_followed == 0 || vn_effective == 0 || lone_initial == 0 {
         machinery("vacuity guard: no exact reset / valid Retry / early VN ever took effect — probe construction is wrong");
     }
+    // (d) the replay window itself (Dedup) against the set of packet numbers seen, E1
+    crate::checks::merge_comp(&mut rep, "C04", thorough, dl);
     rep.sample(json!({"kind":"probe","target":"client","step":20,"probe":"ResetBitFlip(9)","meaning":"a 46-byte datagram from the server's address ending in the reset token of the server CID in use with bit 9 flipped"}));
     rep.assumptions = vec![
         "model TLS: a keyed 128-bit tag over (key, packet number, header, payload) stands in for the AEAD; forgery = any change of authenticated bytes".into(),
@@ -1014,6 +1016,10 @@ pub fn main(args: &Args) -> ! {
 pub fn replay(args: &Args) -> ! {
     let path = args.replay.as_ref().unwrap();
     let v: Value = serde_json::from_str(&std::fs::read_to_string(path).unwrap_or_else(|e| machinery(&format!("{e}")))).unwrap_or_else(|e| machinery(&format!("{e}")));
+    if let Some(out) = crate::checks::replay_comp(&v) {
+        println!("{out}");
+        std::process::exit(0)
+    }
     let r = &v["replay"];
     let base = Instant::now();
     match r["kind"].as_str().unwrap_or("") {
